@@ -166,6 +166,16 @@ static void note_drop(const size_t r, size_t drop) {
 	if (synced[r]) { synced[r] = 0; expq[r] = expq[r] + 1; }
 }
 
+/* Case split on the reader's block index before each call that forms &r_buf->iov[rpos->iov_index]: with a symbolic
+ * index every iov[i].iov_len behind that pointer is a byte-level extraction from the whole table at a symbolic offset
+ * (measured: one r_buf_data_get = 450 k variables); with the index a constant per branch it is a plain element access.
+ * Pure case distinction - all branches are in the same formula, the default branch keeps the general call. */
+#define SPLIT_IDX(r, stmt) do { \
+	size_t ix_ = rp[r].iov_index; int done_ = 0; \
+	for (size_t k_ = 0; k_ < IOVTAB; k_++) { if (!done_ && ix_ == k_) { rp[r].iov_index = k_; stmt; done_ = 1; } } \
+	if (!done_) { stmt; } \
+} while (0)
+
 static void writer_step(struct step_s s, unsigned m, size_t r) {
 	uint8_t *p = NULL;
 	size_t round_before = rb->round_num;
@@ -220,7 +230,8 @@ static void reader_step(struct step_s s, unsigned m, const size_t r) {
 		iovec_t iov[IOVN];
 		size_t drop = 0, dsz = 12345;
 		LOG("R%zu data_get(size=%u) rpos before {idx %zu off %zu round %zu} expecting seq %d (synced %d)\n", r, s.a, rp[r].iov_index, rp[r].iov_off, rp[r].round_num, expq[r], synced[r]);
-		size_t cnt = r_buf_data_get(rb, &rp[r], s.a, iov, IOVN, &drop, &dsz);
+		size_t cnt = 0;
+		SPLIT_IDX(r, cnt = r_buf_data_get(rb, &rp[r], s.a, iov, IOVN, &drop, &dsz));
 		LOG("   -> %zu regions, data_size_ret %zu, drop %zu; rpos {idx %zu off %zu round %zu}\n", cnt, dsz, drop, rp[r].iov_index, rp[r].iov_off, rp[r].round_num);
 		for (size_t k = 0; k < cnt && k < IOVN; k++) LOG("   region %zu: off %ld len %zu\n", k, (long)(iov[k].iov_base - rb->buf), iov[k].iov_len);
 		for (size_t k = 0; k < SIZE; k++) LOG(" %d", sh[k]);
@@ -246,10 +257,12 @@ static void reader_step(struct step_s s, unsigned m, const size_t r) {
 		V_ASSUME(wgets > 0);
 #endif
 		LOG("R%zu avail: rpos before {idx %zu off %zu round %zu} expecting seq %d (synced %d)\n", r, rp[r].iov_index, rp[r].iov_off, rp[r].round_num, expq[r], synced[r]);
-		size_t av = r_buf_data_avail_size(rb, &rp[r], &drop);
+		size_t av = 0;
+		SPLIT_IDX(r, av = r_buf_data_avail_size(rb, &rp[r], &drop));
 		LOG("   -> avail %zu drop %zu; rpos {idx %zu off %zu round %zu}\n", av, drop, rp[r].iov_index, rp[r].iov_off, rp[r].round_num);
 		note_drop(r, drop);
-		size_t cnt = r_buf_data_get(rb, &rp[r], (size_t)SIZE + 1, iov, IOVN, &drop2, &dsz);
+		size_t cnt = 0;
+		SPLIT_IDX(r, cnt = r_buf_data_get(rb, &rp[r], (size_t)SIZE + 1, iov, IOVN, &drop2, &dsz));
 		LOG("   full read -> %zu regions, data_size_ret %zu, drop %zu\n", cnt, dsz, drop2);
 		for (size_t k = 0; k < cnt && k < IOVN; k++) LOG("   region %zu: off %ld len %zu\n", k, (long)(iov[k].iov_base - rb->buf), iov[k].iov_len);
 		for (size_t k = 0; k < SIZE; k++) LOG(" %d", sh[k]);
